@@ -17,6 +17,12 @@ const D_SHAPES = {
   rec_param_default_decl: "function r(n, p = `${h(n)}${n > 0 ? r(n - 1) : '!'}`) { return p } return r(2)",
   rec_param_default_method: "const ob = { m(n, p = String(n).concat(n > 0 ? ob.m(n - 1) : '!')) { return p } }; return ob.m(2)",
   rec_param_default_arrow: "const r = (n, p = h(n) + (n > 0 ? r(n - 1) : '!')) => p; return r(2)",
+  rec_param_default_arrow_block: "const r = (n, p = h(n) + (n > 0 ? r(n - 1) : '!')) => { return p }; return r(2)",
+  rec_param_default_arrow_block_tpl: "const r = (n, p = `${h(n)}${n > 0 ? r(n - 1) : '!'}`) => { const q = p; return q }; return r(2)",
+  rec_param_pattern_default_arrow_block: "const r = (n, { p = String(n).concat(n > 0 ? r(n - 1) : '!') } = {}) => { return p }; return r(2)",
+  param_default_arrow_block_called_in_operand: "const t = (n, p = h(n) + '!') => { return p }; return h(1) + t(2)",
+  param_default_async_arrow_block: "const t = async (n, p = h(n) + '!') => { return p }; return Promise.all([t(1), t(2)]).then((v) => h(0) + v.join())",
+  param_default_nested_arrow_block: "const mk = (n) => { return (q, p = h(q) + (q > 0 ? mk(n)(q - 1) : '!')) => { return p } }; return mk(1)(2)",
   mutual: "function e1(n) { return n > 0 ? h(n) + o1(n - 1) : 'e' } function o1(n) { return n > 0 ? h(n) + e1(n - 1) : 'o' } return e1(3)",
   callback: "function r(n) { return [1, 2].map((q) => h(q * n) + (n > 0 ? r(n - 1) : '!')).join(',') } return r(2)",
   class_field: "let d = 2; class L { v = h(d) + (d-- > 0 ? new L().v : '!') } return new L().v",
